@@ -1,0 +1,98 @@
+//go:build verif
+
+package prompting
+
+// Contracts for property C32 (prompting is serialised, ends at unregistration,
+// and hides secrets). Comment-only file, compiled only under the "verif" build
+// tag; "//@" lines are read by govc.
+
+// ---------------------------------------------------------------- echo mode
+
+// The four OpenSSH yes/no host-key confirmation suffixes, written out
+// independently of the table in response_mode.go.
+//@ pred endsWith(s, t) = len(s) >= len(t) && forall i in 0..len(t) :: s[len(s) - len(t) + i] == t[i]
+//@ pred knownYesNo(p) = endsWith(p, "(yes/no)? ") || endsWith(p, "(yes/no): ") || endsWith(p, "(yes/no/[fingerprint])? ") || endsWith(p, "Please type 'yes', 'no' or the fingerprint: ")
+
+//@ pkginv[table] len(echoedPromptSuffixes) == 4 && echoedPromptSuffixes[0] == "(yes/no)? " && echoedPromptSuffixes[1] == "(yes/no): " && echoedPromptSuffixes[2] == "(yes/no/[fingerprint])? " && echoedPromptSuffixes[3] == "Please type 'yes', 'no' or the fingerprint: "
+
+//@ func init
+
+// Responses are read without echo unless the prompt ends in one of the known
+// suffixes; the result is never the (unused) masked mode.
+//@ func determineResponseMode
+//@   ensures[secret] !knownYesNo(prompt) ==> result == ResponseModeSecret
+//@   ensures[echo] knownYesNo(prompt) ==> result == ResponseModeEcho
+//@   ensures[modes] result == ResponseModeSecret || result == ResponseModeEcho
+//@   loop 1 invariant -1 <= rangeindex && rangeindex < len(echoedPromptSuffixes)
+//@   loop 1 invariant[none] forall k in 0..rangeindex+1 :: !endsWith(prompt, echoedPromptSuffixes[k])
+
+// ---------------------------------------------------------------- registry
+//
+// A registered prompter lives in a one-slot "holder" channel: whoever receives
+// it from the holder is the only one allowed to invoke it and must send it
+// back. The ghost maps count the channel operations executed by the verified
+// function itself (govc updates them at every send / successful receive /
+// close): chsends[c], chrecvs[c], chcloses[c]; chlast[c] is the last value the
+// function sent on c. pinvoked[p] counts invocations of prompter p.
+//@ ghost chsends map[int]int
+//@ ghost chrecvs map[int]int
+//@ ghost chcloses map[int]int
+//@ ghost chlast map[int]int
+//@ ghost pinvoked map[int]int
+
+// The registry map is created by the package initialiser and never reassigned.
+//@ pkginv[registry] registry != nil
+
+// registered(id): the registry (a nil map has no entries) has a holder for id.
+//@ pred registered(id) = registry != nil && has(registry, id)
+
+//@ iface Prompter.Message
+//@   params self, message
+//@   modifies pinvoked[self]
+//@   ensures pinvoked[self] == old(pinvoked[self]) + 1
+
+//@ iface Prompter.Prompt
+//@   params self, prompt
+//@   modifies pinvoked[self]
+//@   ensures pinvoked[self] == old(pinvoked[self]) + 1
+
+// Registration puts exactly one token (the prompter itself) into a fresh
+// holder and publishes the holder only if the identifier was free.
+//@ func RegisterPrompterWithIdentifier
+//@   ensures[published] result == nil ==> registered(identifier) && !old(registered(identifier)) && fresh(registry[identifier])
+//@   ensures[onetoken] result == nil ==> chsends[registry[identifier]] == old(chsends)[registry[identifier]] + 1 && chrecvs[registry[identifier]] == old(chrecvs)[registry[identifier]] && chlast[registry[identifier]] == prompter
+//@   ensures[collision] result != nil && identifier != "" ==> old(registered(identifier)) && registry[identifier] == old(registry[identifier])
+
+// Message / Prompt: the prompter is invoked only while this call holds the
+// token (it has received it from the holder, successfully, and has not yet
+// sent it back), it is the value received, it is invoked at most once, and on
+// every path the token is sent back exactly as often as it was received; the
+// holder is never closed here.
+//@ func Message
+//@   at call Prompter.Message assert[holding] ok && arg0 == prompter && chrecvs[holder] == old(chrecvs[holder]) + 1 && chsends[holder] == old(chsends[holder])
+//@   ensures[balanced] chsends[holder] - old(chsends[holder]) == chrecvs[holder] - old(chrecvs[holder]) && chrecvs[holder] <= old(chrecvs[holder]) + 1
+//@   ensures[same] chrecvs[holder] > old(chrecvs[holder]) ==> chlast[holder] == prompter && pinvoked[prompter] == old(pinvoked[prompter]) + 1
+//@   ensures[idle] chrecvs[holder] == old(chrecvs[holder]) ==> pinvoked == old(pinvoked)
+//@   ensures[noclose] chcloses == old(chcloses)
+
+//@ func Prompt
+//@   at call Prompter.Prompt assert[holding] ok && arg0 == prompter && chrecvs[holder] == old(chrecvs[holder]) + 1 && chsends[holder] == old(chsends[holder])
+//@   ensures[balanced] chsends[holder] - old(chsends[holder]) == chrecvs[holder] - old(chrecvs[holder]) && chrecvs[holder] <= old(chrecvs[holder]) + 1
+//@   ensures[same] chrecvs[holder] > old(chrecvs[holder]) ==> chlast[holder] == prompter && pinvoked[prompter] == old(pinvoked[prompter]) + 1
+//@   ensures[idle] chrecvs[holder] == old(chrecvs[holder]) ==> pinvoked == old(pinvoked)
+//@   ensures[noclose] chcloses == old(chcloses)
+
+// Unregistration removes the holder from the registry first, then takes the
+// token (so it waits for an invocation in flight), and only then closes the
+// holder; it never sends the token back and never invokes the prompter.
+//@ func UnregisterPrompter
+//@   at call close assert[tokenfirst] arg0 == holder && chrecvs[holder] == old(chrecvs[holder]) + 1 && !registered(identifier)
+//@   ensures[removed] !registered(identifier)
+//@   ensures[taken] chrecvs[holder] == old(chrecvs[holder]) + 1 && chsends[holder] == old(chsends[holder]) && chcloses[holder] == old(chcloses[holder]) + 1 && holder == old(registry[identifier])
+//@   ensures[quiet] pinvoked == old(pinvoked)
+
+// The automatic command-line prompt asks for an echoed response exactly for
+// the known yes/no prompts and for a secret (no echo, no mask) response for
+// every other prompt.
+//@ func PromptCommandLine
+//@   at call PromptCommandLineWithResponseMode assert[mode] arg0 == prompt && (arg1 == ResponseModeEcho <==> knownYesNo(prompt)) && (arg1 == ResponseModeSecret <==> !knownYesNo(prompt))
